@@ -5,6 +5,7 @@ from checks import oracles as O
 from checks import oracles_reg as R
 from checks.common import result
 from model import machine, ref, worldgen
+from simkit import fs
 
 SIZES = {"quick": dict(n_min=4, n_max=11), "thorough": dict(n_min=4, n_max=18)}
 
@@ -291,9 +292,7 @@ def gen_c05(seed, tier):
             # the non-source stores are real files of the bundled stores (pickle files, touch files, pathlib paths)
             from checks.cuts import file_backed
 
-            derived = ref.derived_stores(desc["world"])
-            names = [n["store"] for n in desc["world"]["nodes"] if n.get("store") and n["kind"] == "call"
-                     and n["store"] not in derived and not desc["world"]["stores"][n["store"]].get("feeds")]
+            names = ref.file_backable(desc["world"])
             for nm in names:
                 desc["world"]["stores"][nm]["flavour"] = "plain"
             if names:
@@ -354,9 +353,7 @@ def gen_c14(seed, tier):
         # directory exactly as it found it
         from checks.cuts import file_backed
 
-        derived = ref.derived_stores(desc["world"])
-        fnames = [n["store"] for n in desc["world"]["nodes"] if n.get("store") and n["kind"] == "call"
-                  and n["store"] not in derived and not desc["world"]["stores"][n["store"]].get("feeds")]
+        fnames = ref.file_backable(desc["world"])
         for nm in fnames:
             desc["world"]["stores"][nm]["flavour"] = "plain"
         if fnames:
@@ -434,7 +431,7 @@ def _exec_c14(prop, desc, hist):
         machine.apply_op(hist, op, idx, tape=tapes.get(str(idx)))
     op = desc["ops"][-1]
     for nm in desc.get("orphan_staging") or ():
-        with open(str(hist.disk.path(nm)) + ".STAGING", "wb") as f:
+        with fs.real_open(str(hist.disk.path(nm)) + ".STAGING", "wb") as f:
             f.write(b"partial data of a writer that was killed")
     st0 = _state(hist)
     # (1) the dry run
